@@ -484,12 +484,18 @@ def run_bandit(case, driver):
                 sc = L.score(ctx, actions, a)
                 if not (is_real(sc) and close(sc, p)):
                     B("predict(%r, %r) returned (%r, %r) but score of that action is %r (call #%d)" % (ctx, actions, a, p, sc, k), "predict-prob-differs-from-score")
+                elif sc != p:      # self-consistent means the same double, not a neighbouring one
+                    B("predict(%r, %r) returned (%r, %r) but score of that action in the same state is %r: not the same float (call #%d)" % (
+                        ctx, actions, a, p, sc, k), "predict-prob-not-identical-to-score")
             except Exception as e:
                 B("score of the predicted action raised %r (call #%d)" % (e, k), "score-raises-" + type(e).__name__)
             if not malformed:
                 try:
                     keep.append(list(actions))
                     ref_p = shadow.score(ctx, keep[-1], keep[-1][idx])
+                    if is_real(ref_p) and close(ref_p, p) and ref_p != p:
+                        B("predict(%r, %r) returned (%r, %r) but an identically taught %s scores that action %r: not the same float (call #%d)" % (
+                            ctx, list(actions), a, p, learner_src(spec), ref_p, k), "predict-prob-not-identical-to-policy")
                     if not (is_real(ref_p) and close(ref_p, p)):
                         B("predict(%r, %r) returned (%r, %r) but an identically taught %s gives that action probability %r (call #%d, %d calls since the last learn%s)" % (
                             ctx, list(actions), a, p, learner_src(spec), ref_p, k, since_learn, ", the same list object refilled in place" if case.get("shared_list") else ""),
@@ -825,12 +831,15 @@ def run_corral(case, driver):
         if any(i is None for i in bidx):
             B("a base learner of Corral chose %r, not among the offered %r (round %d)" % (bacts_v, actions, k), "base-not-in-actions")
             break
-        pmf = [sum(pb for pb, bi in zip(pbars, bidx) if bi == i) for i in range(len(actions))]
+        pmf = [sum([pb * int(bi == i) for pb, bi in zip(pbars, bidx)]) for i in range(len(actions))]      # the source's own expression
         if not is_real(p) or p <= 0:
             B("predict(%r, %r) reported probability %r for %r (round %d)" % (ctx, actions, p, a, k), "predict-prob-not-positive")
             break
         if not close(p, pmf[idx], 1e-9):
             B("predict reported probability %r for %r but the mixture of the base learners' choices gives it %r (round %d)" % (p, a, pmf[idx], k), "predict-prob-differs-from-mixture")
+        elif p != pmf[idx]:
+            B("predict reported probability %r for %r but the mixture of the base learners' choices (smoothed weights %s) is %r: not the same float (round %d)" % (
+                p, a, pbars, pmf[idx], k), "predict-prob-not-identical-to-mixture")
         if a_on:
             ans = driver.ask({"kind": "corral", "state": full_state(), "op": {"op": "predict", "actions": ids, "bacts": [ids[i] for i in bidx]}})
             mo = ans["out"]
@@ -1600,6 +1609,13 @@ class C16(Property):
                         {"op": "learn", "a": [4, 2], "r": [1, 4]}, {"op": "predict", "actions": [[3, 0], [4, 0], [0, 0]]}, {"op": "learn", "a": "last", "r": [1, 1]},
                         {"op": "scores", "actions": [[3, 1], [4, 1], [0, 0]]}, {"op": "predict", "actions": acts}, {"op": "scores", "actions": [[1, 0], [4, 1], [3, 0]]}]
                 cs.append({"t": "bandit", "learner": spec, "pool": pool, "hist": hist})
+        # epsilon 0.05 over 4 actions: the pmf sums to 0.9999999999999999 in doubles; predict must report the very double score reports
+        p4 = [CATALOG[7], CATALOG[8], CATALOG[9], CATALOG[2]]
+        a4 = [[0, 0], [1, 0], [2, 0], [3, 0]]
+        for seed in (1, 2, 3):
+            cs.append({"t": "bandit", "learner": {"type": "eps", "eps": q(0.05), "seed": seed}, "pool": p4,
+                       "hist": [{"op": "learn", "a": [0, 0], "r": [1, 1]}, {"op": "predict", "actions": a4}, {"op": "scores", "actions": a4},
+                                {"op": "learn", "a": "last", "r": [1, 2]}, {"op": "predict", "actions": a4}, {"op": "predict", "actions": a4}]})
         # the preliminary replay P2 (choice with a zero first weight at uniform 0), through a learner
         cs.append({"t": "bandit", "learner": {"type": "fixed", "pmf": [[0, 1], [1, 1]], "seed": 482549499}, "pool": [CATALOG[7], CATALOG[8]],
                    "hist": [{"op": "predict", "actions": [[0, 0], [1, 0]]}, {"op": "scores", "actions": [[0, 0], [1, 0]]}]})
